@@ -1041,6 +1041,101 @@ fn damage_tile_index(bytes: &[u8], bi: usize, drop: usize) -> Option<Vec<u8>> {
 	Some(out)
 }
 
+/// mode `streams`: on ONE long-lived reader, callers with an even number run bbox streams (the trait's default
+/// stream for pmtiles / tar / directory: a sequence of lookups), the others run lookups bound to different leaf
+/// directories at the same time.  Payloads are coordinate-stamped; every streamed (coordinate, blob) pair is
+/// checked against the lone lookup of THAT coordinate, and every stream must deliver every stored tile of its box.
+fn stress_container_streams(cfg: &StressCfg, reader: Arc<Box<dyn TilesReaderTrait>>, base: &Baseline, groups: &Groups) -> (u64, Vec<Fail>, Vec<(u64, u64)>) {
+	let bymap: Arc<HashMap<(u8, u32, u32), Option<Vec<u8>>>> = Arc::new(base.iter().map(|(c, b)| ((c.z, c.x, c.y), b.clone())).collect());
+	// boxes: per level the bounding box of the stored tiles (if it has at most 20000 coordinates) and its quarters
+	let mut boxes: Vec<TileBBox> = vec![];
+	for z in 0..=31u8 {
+		let cs: Vec<&TileCoord3> = base.iter().filter(|(c, b)| c.z == z && b.is_some()).map(|(c, _)| c).collect();
+		if cs.is_empty() {
+			continue;
+		}
+		let (x0, x1) = (cs.iter().map(|c| c.x).min().unwrap(), cs.iter().map(|c| c.x).max().unwrap());
+		let (y0, y1) = (cs.iter().map(|c| c.y).min().unwrap(), cs.iter().map(|c| c.y).max().unwrap());
+		let (xm, ym) = ((x0 + x1) / 2, (y0 + y1) / 2);
+		for (a, b, c, d) in [(x0, y0, x1, y1), (x0, y0, xm, ym), (xm, ym, x1, y1), (xm, y0, x1, ym)] {
+			if let Ok(bb) = TileBBox::new(z, a, b, c, d) {
+				if bb.count_tiles() <= 6_000 {
+					boxes.push(bb);
+				}
+			}
+		}
+	}
+	let boxes = Arc::new(boxes);
+	let work = |t: usize, reader: Arc<Box<dyn TilesReaderTrait>>, base: Baseline, bymap: Arc<HashMap<(u8, u32, u32), Option<Vec<u8>>>>, boxes: Arc<Vec<TileBBox>>, groups: Groups, cfg: StressCfg| async move {
+		let mut rng = Rng::new(cfg.seed.wrapping_mul(1000).wrapping_add(t as u64));
+		let mut fails: Vec<Fail> = vec![];
+		let mut n = 0u64;
+		let nb = base.len() as u64;
+		for _ in 0..cfg.calls {
+			if t % 2 == 0 && !boxes.is_empty() {
+				let bb = &boxes[rng.below(boxes.len() as u64) as usize];
+				let got = reader.get_bbox_tile_stream(bb.clone()).await.collect().await;
+				n += got.len() as u64 + 1;
+				let mut seen = std::collections::HashSet::new();
+				let mut mispaired = 0;
+				let mut first: Option<String> = None;
+				for (c, blob) in &got {
+					seen.insert((c.z, c.x, c.y));
+					if bymap.get(&(c.z, c.x, c.y)).and_then(|b| b.as_deref()) != Some(blob.as_slice()) {
+						mispaired += 1;
+						if first.is_none() {
+							first = Some(format!("{}/{}/{} came with {:?}", c.z, c.x, c.y, String::from_utf8_lossy(&blob.as_slice()[..blob.len().min(16) as usize])));
+						}
+					}
+				}
+				let expected = bymap.iter().filter(|(k, v)| v.is_some() && k.0 == bb.level && bb.x_min <= k.1 && k.1 <= bb.x_max && bb.y_min <= k.2 && k.2 <= bb.y_max).count();
+				if mispaired > 0 || seen.len() != expected || got.len() != expected {
+					if fails.len() < 4 {
+						fails.push(Fail { kind: "wrong-stream", detail: json!({"thread": t, "box": format!("{bb:?}"), "delivered": got.len(), "stored_in_box": expected, "pairs_differing_from_the_lone_lookup": mispaired, "first": first}) });
+					}
+				}
+			} else {
+				for _ in 0..200 {
+					let i = pick_idx(&mut rng, t, nb, &groups, "leaves");
+					let got = reader.get_tile_data(&base[i].0).await.ok().flatten().map(|b| b.into_vec());
+					n += 1;
+					if got != base[i].1 && fails.len() < 4 {
+						let c = base[i].0;
+						fails.push(Fail { kind: "wrong-bytes", detail: json!({"thread": t, "coord": format!("{}/{}/{}", c.z, c.x, c.y)}) });
+					}
+				}
+			}
+		}
+		(n, fails)
+	};
+	let results: Vec<(u64, Vec<Fail>)> = if cfg.exec == "tokio" {
+		let rt = tokio::runtime::Builder::new_multi_thread().worker_threads(16).enable_all().build().unwrap();
+		rt.block_on(async {
+			let hs: Vec<_> = (0..cfg.threads).map(|t| tokio::spawn(work(t, reader.clone(), base.clone(), bymap.clone(), boxes.clone(), groups.clone(), cfg.clone()))).collect();
+			let mut v = vec![];
+			for h in hs {
+				v.push(h.await.unwrap_or((0, vec![Fail { kind: "panic", detail: json!({}) }])));
+			}
+			v
+		})
+	} else {
+		let hs: Vec<_> = (0..cfg.threads)
+			.map(|t| {
+				let (reader, base, bymap, boxes, groups, cfg) = (reader.clone(), base.clone(), bymap.clone(), boxes.clone(), groups.clone(), cfg.clone());
+				std::thread::spawn(move || futures::executor::block_on(work(t, reader, base, bymap, boxes, groups, cfg)))
+			})
+			.collect();
+		hs.into_iter().map(|h| h.join().unwrap_or((0, vec![Fail { kind: "panic", detail: json!({}) }]))).collect()
+	};
+	let mut total = 0;
+	let mut fails = vec![];
+	for (n, f) in results {
+		total += n;
+		fails.extend(f);
+	}
+	(total, fails, vec![(cfg.threads as u64, cfg.calls as u64)])
+}
+
 type StreamResult = Vec<((u8, u32, u32), Vec<u8>)>;
 
 /// a file on which every round opens a FRESH reader: the expected verdict of every probe is the
@@ -1509,7 +1604,11 @@ fn run_stress(out: &mut Out, env: &StressEnv, cfg: &StressCfg) {
 		stress_rounds(cfg, t)
 	} else {
 		let Some((reader, base, groups)) = env.containers.get(&cfg.target) else { return };
-		stress_container(cfg, reader.clone(), base, groups)
+		if cfg.mode == "streams" {
+			stress_container_streams(cfg, reader.clone(), base, groups)
+		} else {
+			stress_container(cfg, reader.clone(), base, groups)
+		}
 	};
 	out.evaluations += total.saturating_sub(sample.len() as u64);
 	for (a, b) in &sample {
@@ -1540,7 +1639,7 @@ pub fn run(args: &Args) {
 	}
 	quiet_panics();
 	let mut out = Out::new(&args.out);
-	out.rule = "(1) `C13 iso`: read_range calls of the real DataReaderFile traced with strace -ff from 4 threads (ranges inside the file, empty, and beyond EOF); the observed per-call syscall program is normalised and judged by the Lean model (isolated? equal to the modelled program? bytes it returns alone) – non-trivial = the call issues at least one syscall. (2) `C13 sched`: 1–4 random well-formed syscall programs (dup/open/lseek/read/pread/close on shared, aliased and own descriptors, plus the two read_range variants) and a random schedule, executed step by step with real syscalls and by the model – non-trivial = at least two non-empty programs whose steps alternate at least twice. (3) stress, oracle only: one reader shared by 2–16 OS threads / 16–64 tasks on a 16-worker tokio runtime, random byte ranges (disjoint regions per thread or overlapping; 0 B – 200 KB, plus a phase of reads of 1 MiB−1 / 1 MiB / 1 MiB+1 / 1–3 MiB, 64 OS threads, and a phase under RLIMIT_NOFILE lowered to the descriptors in use + 8; position-dependent file bytes) resp. random tile coordinates (present and absent) on versatiles/pmtiles/tar files written by the real writers, and on PMTiles files WITH leaf directories (16900 tiles through the real writer; independently encoded files with 2 and 3 directory levels) where each caller mostly stays in one leaf and different callers use leaves far apart; rounds on FRESHLY opened versatiles readers (cold tile-index cache) in which the callers mix bbox streams spanning 1–16 blocks with lookups (each stream must equal the stream run alone), and lookups on a container with a damaged tile index (each verdict bytes/none/err must equal the verdict of a fresh reader); tiny containers of every format (versatiles, pmtiles, tar, mbtiles, directory on disk; versatiles and pmtiles also blob-backed) on which 2/4/16/64 callers make their FIRST lookups / streams on a freshly opened reader at the same moment (barrier), many rounds; every result is compared with the sequential result; distinct = by (target, executor, threads, request) over the first 200 requests of every thread".into();
+	out.rule = "(1) `C13 iso`: read_range calls of the real DataReaderFile traced with strace -ff from 4 threads (ranges inside the file, empty, and beyond EOF); the observed per-call syscall program is normalised and judged by the Lean model (isolated? equal to the modelled program? bytes it returns alone) – non-trivial = the call issues at least one syscall. (2) `C13 sched`: 1–4 random well-formed syscall programs (dup/open/lseek/read/pread/close on shared, aliased and own descriptors, plus the two read_range variants) and a random schedule, executed step by step with real syscalls and by the model – non-trivial = at least two non-empty programs whose steps alternate at least twice. (3) stress, oracle only: one reader shared by 2–16 OS threads / 16–64 tasks on a 16-worker tokio runtime, random byte ranges (disjoint regions per thread or overlapping; 0 B – 200 KB, plus a phase of reads of 1 MiB−1 / 1 MiB / 1 MiB+1 / 1–3 MiB, 64 OS threads, and a phase under RLIMIT_NOFILE lowered to the descriptors in use + 8; position-dependent file bytes) resp. random tile coordinates (present and absent) on versatiles/pmtiles/tar files written by the real writers, and on PMTiles files WITH leaf directories (16900 tiles through the real writer; independently encoded files with 2 and 3 directory levels) where each caller mostly stays in one leaf and different callers use leaves far apart; rounds on FRESHLY opened versatiles readers (cold tile-index cache) in which the callers mix bbox streams spanning 1–16 blocks with lookups (each stream must equal the stream run alone), and lookups on a container with a damaged tile index (each verdict bytes/none/err must equal the verdict of a fresh reader); bbox streams running WHILE other callers look up tiles of other leaf directories on the same long-lived reader (pmtiles with leaves, 2- and 3-level independently encoded files, pmtiles, tar, directory, mbtiles, versatiles; every streamed (coordinate, blob) pair is checked against the lone lookup of that coordinate – payloads are coordinate-stamped –, and every stream must deliver every stored tile of its box); tiny containers of every format (versatiles, pmtiles, tar, mbtiles, directory on disk; versatiles and pmtiles also blob-backed) on which 2/4/16/64 callers make their FIRST lookups / streams on a freshly opened reader at the same moment (barrier), many rounds; every result is compared with the sequential result; distinct = by (target, executor, threads, request) over the first 200 requests of every thread".into();
 	if let Some(p) = &args.replay {
 		let lines: Vec<String> = std::fs::read_to_string(p).unwrap().lines().map(|s| s.to_string()).collect();
 		let targets: Vec<&str> = lines.iter().filter(|l| l.starts_with("C13 stress ")).filter_map(|l| l.split(' ').nth(2)).collect();
@@ -1553,7 +1652,7 @@ pub fn run(args: &Args) {
 				emit_sched(&mut out, &args.out, t[2].parse().unwrap(), &progs, &sched);
 			} else if t.len() == 8 && t[1] == "stress" {
 				let cfg = StressCfg { target: t[2].into(), exec: t[3].into(), threads: t[4].parse().unwrap(), calls: t[5].parse().unwrap(), mode: t[6].into(), seed: t[7].parse().unwrap() };
-				for rep in 0..5 {
+				for rep in 0..3 {
 					let mut c = cfg.clone();
 					c.seed += rep * 7919;
 					run_stress(&mut out, &env, &c);
@@ -1600,6 +1699,17 @@ pub fn run(args: &Args) {
 	for target in ["pmtiles-leaves", "pmtiles-indep2", "pmtiles-indep3"] {
 		for (exec, threads) in [("threads", 2usize), ("threads", 8), ("tokio", 8), ("tokio", 32)] {
 			let cfg = StressCfg { target: target.into(), exec: exec.into(), threads, calls: tile_calls / threads, mode: "leaves".into(), seed: rng.next() % 1_000_000 };
+			run_stress(&mut out, &env, &cfg);
+		}
+	}
+	// bbox streams WHILE other callers do lookups on the same reader (the default stream of pmtiles / tar /
+	// directory is a sequence of lookups; cf. the pairing theorem of C14: an unordered buffer must keep each
+	// result with its own coordinate)
+	let stream_targets: &[&str] = if args.thorough() { &["pmtiles-leaves", "pmtiles-indep2", "pmtiles-indep3", "pmtiles", "tar", "dir", "mbtiles", "versatiles"] } else { &["pmtiles-leaves", "pmtiles-indep2", "pmtiles-indep3", "pmtiles", "tar", "dir"] };
+	for target in stream_targets.iter().copied() {
+		for (exec, threads, calls) in [("tokio", 8usize, 5usize), ("tokio", 24, 3), ("threads", 8, 3)] {
+			let calls = if target == "pmtiles-leaves" { (calls + 1) / 2 } else { calls };
+			let cfg = StressCfg { target: target.into(), exec: exec.into(), threads, calls: if args.thorough() { calls * 6 } else { calls }, mode: "streams".into(), seed: rng.next() % 1_000_000 };
 			run_stress(&mut out, &env, &cfg);
 		}
 	}
